@@ -152,6 +152,9 @@ func main() {
 		}
 	}
 	rep.Sites = len(sites)
+	if *pristine {
+		sites = nil
+	}
 	writeSites()
 	out, _ := json.MarshalIndent(rep, "", " ")
 	fmt.Println(string(out))
